@@ -879,13 +879,61 @@ func platformOptions(w *sched.W) {
 			}
 		}
 	}
+	// the same entries over the other transports (chosen by the user, or by the definition itself): an entry
+	// that has nothing to say to that transport is skipped silently, one that has still takes effect
+	for _, p := range list {
+		if p.name == "transport-type" || p.name == "transport-system-open-args" {
+			continue
+		}
+		for _, tt := range []string{"standard", "telnet"} {
+			for _, byDef := range []bool{false, true} {
+				block := fmt.Sprintf("    - option: %s\n      value: %s\n", p.name, p.yaml)
+				var opts []util.Option
+				if byDef {
+					block += fmt.Sprintf("    - option: transport-type\n      value: '%s'\n", tt)
+				} else {
+					opts = append(opts, options.WithTransportType(tt))
+				}
+				cse := fmt.Sprintf("platform option %s=%s transport=%s set-by-definition=%v", p.name, p.yaml, tt, byDef)
+				w.Case("", cse)
+				var got snap
+				var err error
+				func() {
+					defer func() {
+						if r := recover(); r != nil {
+							err = fmt.Errorf("PANIC: %v", r)
+						}
+					}()
+					pl, e := platform.NewPlatform([]byte(platformYAML(block)), "host", opts...)
+					if e != nil {
+						err = e
+						return
+					}
+					d, e := pl.GetNetworkDriver()
+					if e != nil {
+						err = e
+						return
+					}
+					got = snap{}
+					snapGeneric(got, d.Driver)
+				}()
+				if err != nil {
+					w.Violate("c19:platform-option-rejected-on-"+tt+":"+p.name, cse+": "+err.Error(), cse)
+					continue
+				}
+				if strings.HasPrefix(p.key, "ch.") && got[p.key] != p.want {
+					w.Violate("c19:platform-option-no-effect-on-"+tt+":"+p.name, fmt.Sprintf("%s: %s = %q want %q", cse, p.key, got[p.key], p.want), cse)
+				}
+			}
+		}
+	}
 }
 
 func TestCheck(t *testing.T) {
 	sched.Main(t, sched.Check{
 		ID:    "C19",
 		Level: "exploration",
-		Rule:  "reference model = table option -> (setting, value, set/append semantics) folded in list order over the default snapshot (reflection over all exported fields of driver, channel, transport args, ssh args and implementation); enumerated: every option alone x 2 values x 4 transport bases x 4 constructors; every ordered pair of options (incl. the same option twice with different values); every permutation of 6 conflict groups at every position of a fixed 10-option list; documented invalid values at every position; every option name platform/options.go recognises as a YAML options block, alone and with the user's option for the same setting; distinct = distinct option lists per constructor",
+		Rule:  "reference model = table option -> (setting, value, set/append semantics) folded in list order over the default snapshot (reflection over all exported fields of driver, channel, transport args, ssh args and implementation); enumerated: every option alone x 2 values x 4 transport bases x 4 constructors; every ordered pair of options (incl. the same option twice with different values); every permutation of 6 conflict groups at every position of a fixed 10-option list; documented invalid values at every position; every option name platform/options.go recognises as a YAML options block, alone, with the user's option for the same setting, and over the standard and telnet transports (chosen by the user / by the definition); distinct = distinct option lists per constructor",
 		Assumptions: []string{
 			"singles + pairs show each option writes only its own fields and reads none, so longer permutations equal the fold; conflict groups are permuted explicitly",
 			"cells that are ambiguous by design are don't-care: prompt pattern under network/NETCONF/platform (they install their own), privilege levels under network/platform (the harness must supply its own first)",
